@@ -1160,6 +1160,218 @@ theorem twlc_jac_below_kT (f Lp Lc St C g0 g1 Fc kT : ℝ) (hf : 0 < f) (hLp : 0
 
 end extjac
 
+/-! ### eFJC in the guarded regimes (`2 f L_p / kT > 300`) -/
+section efjcguards
+open Filter Topology
+set_option linter.unusedSimpArgs false
+set_option linter.unusedTactic false
+set_option linter.unreachableTactic false
+set_option linter.unusedVariables false
+
+/-- above the second overflow guard (`2 f L_p / kT > 500`) the code evaluates `coth = 1` in the model function and
+    drops `1/sinh²` in the derivative: the two are consistent — the derivative is exact for the function the code computes -/
+theorem efjc_deriv_above_guards (f Lp Lc St kT : ℝ) (hf : 0 < f) (hLp : 0 < Lp) (hkT : 0 < kT) (hSt : 0 < St)
+    (hx : 500 < f * (2 * Lp / kT)) :
+    HasDerivAt (fun f => efjcDistance f Lp Lc St kT) (efjcDistanceDeriv f Lp Lc St kT) f := by
+  have h20 : (2.0:ℝ) = 2 := by norm_num
+  have hB : 250 * kT / Lp < f := by
+    rw [div_lt_iff₀ hLp]
+    have : f * (2 * Lp / kT) * kT = 2 * (f * Lp) := by field_simp
+    nlinarith
+  have hev : (fun f => efjcDistance f Lp Lc St kT) =ᶠ[𝓝 f]
+      fun f => Lc * (1.0 - kT / (2.0 * f * Lp)) * (1.0 + f / St) := by
+    filter_upwards [Ioi_mem_nhds hB] with x hx
+    have hx1 : 250 * kT / Lp < x := hx
+    have hx0 : 0 < x := lt_trans (by positivity) hx1
+    have h1 : RealLike.lt (RealLike.abs (2.0 * x * Lp / kT)) (500.0:ℝ) = false := by
+      show decide (|2.0 * x * Lp / kT| < 500.0) = false
+      rw [decide_eq_false_iff_not]
+      have hp : 0 < 2.0 * x * Lp / kT := by positivity
+      rw [abs_of_pos hp, not_lt, le_div_iff₀ hkT]
+      rw [div_lt_iff₀ hLp] at hx1
+      norm_num; nlinarith
+    simp only [efjcDistance, coth, h1, Bool.false_eq_true, if_false]
+  refine HasDerivAt.congr_of_eventuallyEq ?_ hev
+  apply HasDerivAt.congr_deriv
+  · repeat' deriv_step_h
+    all_goals side_goal
+  · have h1 : RealLike.lt (RealLike.abs (f * (2.0 * Lp / kT))) (500.0:ℝ) = false := by
+      show decide (|f * (2.0 * Lp / kT)| < 500.0) = false
+      rw [decide_eq_false_iff_not]
+      have hp : 0 < f * (2.0 * Lp / kT) := by positivity
+      rw [abs_of_pos hp]; norm_num; linarith
+    have h2 : RealLike.lt (f * (2.0 * Lp / kT)) (300.0:ℝ) = false := by
+      show decide (f * (2.0 * Lp / kT) < 300.0) = false
+      rw [decide_eq_false_iff_not]; norm_num; linarith
+    simp only [efjcDistanceDeriv, coth, h1, h2, Bool.false_eq_true, if_false]
+    norm_num
+    field_simp
+    ring
+
+/-- between the two guards (`300 < 2 f L_p / kT < 500`) the model function still uses the true `coth` while the
+    derivative drops the `1/sinh²` term: the true derivative is the code's value MINUS `L_c (f/S_t + 1)(2 L_p/kT)/sinh²(2 f L_p/kT)` -/
+theorem efjc_deriv_between_guards (f Lp Lc St kT : ℝ) (hf : 0 < f) (hLp : 0 < Lp) (hkT : 0 < kT) (hSt : 0 < St)
+    (hlo : 300 < f * (2 * Lp / kT)) (hhi : f * (2 * Lp / kT) < 500) :
+    HasDerivAt (fun f => efjcDistance f Lp Lc St kT)
+      (efjcDistanceDeriv f Lp Lc St kT - Lc * (f / St + 1) * (2 * Lp / kT) / (Real.sinh (f * (2 * Lp / kT))) ^ 2) f := by
+  have h20 : (2.0:ℝ) = 2 := by norm_num
+  have hB : f < 250 * kT / Lp := by
+    rw [lt_div_iff₀ hLp]
+    have : f * (2 * Lp / kT) * kT = 2 * (f * Lp) := by field_simp
+    nlinarith
+  have hev : (fun f => efjcDistance f Lp Lc St kT) =ᶠ[𝓝 f]
+      fun f => Lc * (Real.cosh (2.0 * f * Lp / kT) / Real.sinh (2.0 * f * Lp / kT) - kT / (2.0 * f * Lp)) * (1.0 + f / St) := by
+    filter_upwards [Ioo_mem_nhds hf hB] with x hx
+    obtain ⟨hx0, hx1⟩ := hx
+    have h1 : RealLike.lt (RealLike.abs (2.0 * x * Lp / kT)) (500.0:ℝ) = true := by
+      show decide (|2.0 * x * Lp / kT| < 500.0) = true
+      rw [decide_eq_true_eq]
+      have hp : 0 < 2.0 * x * Lp / kT := by positivity
+      rw [abs_of_pos hp, div_lt_iff₀ hkT]
+      rw [lt_div_iff₀ hLp] at hx1
+      norm_num; nlinarith
+    simp only [efjcDistance, coth, h1, if_true]
+    rfl
+  refine HasDerivAt.congr_of_eventuallyEq ?_ hev
+  have hsinh : Real.sinh (2.0 * f * Lp / kT) ≠ 0 := by
+    have hp : 0 < 2.0 * f * Lp / kT := by positivity
+    exact (Real.sinh_pos_iff.mpr hp).ne'
+  apply HasDerivAt.congr_deriv
+  · repeat' deriv_step_h
+    all_goals side_goal
+  · have harg : f * (2.0 * Lp / kT) = 2.0 * f * Lp / kT := by rw [h20]; ring
+    have harg2 : f * (2 * Lp / kT) = 2.0 * f * Lp / kT := by rw [h20]; ring
+    have h1 : RealLike.lt (RealLike.abs (f * (2.0 * Lp / kT))) (500.0:ℝ) = true := by
+      show decide (|f * (2.0 * Lp / kT)| < 500.0) = true
+      rw [decide_eq_true_eq]
+      have hp : 0 < f * (2.0 * Lp / kT) := by positivity
+      rw [abs_of_pos hp]; norm_num; linarith
+    have h2 : RealLike.lt (f * (2.0 * Lp / kT)) (300.0:ℝ) = false := by
+      show decide (f * (2.0 * Lp / kT) < 300.0) = false
+      rw [decide_eq_false_iff_not]; norm_num; linarith
+    simp only [efjcDistanceDeriv, coth, h1, h2, if_true, Bool.false_eq_true, if_false]
+    rw [harg, harg2]
+    have hcs := Real.cosh_sq (2.0 * f * Lp / kT)
+    simp only [RealLikeH.sinh, RealLikeH.cosh]
+    generalize Real.cosh (2.0 * f * Lp / kT) = ch at *
+    generalize Real.sinh (2.0 * f * Lp / kT) = sh at *
+    norm_num
+    field_simp
+    grind
+
+/-- the dropped term is below `4e-180` relative to `L_c (f/S_t + 1)(2 L_p/kT)`: `1/sinh²(x) ≤ 1/2^596` for `x ≥ 300` -/
+theorem inv_sinh_sq_le (x : ℝ) (hx : 300 ≤ x) : 1 / (Real.sinh x) ^ 2 ≤ 1 / 2 ^ 596 := by
+  have he : (2:ℝ) ^ 300 ≤ Real.exp x := by
+    have h1 : (2:ℝ) ^ 300 ≤ Real.exp 1 ^ 300 :=
+      pow_le_pow_left₀ (by norm_num) (by have := Real.add_one_le_exp (1:ℝ); linarith) 300
+    have h2 : Real.exp 1 ^ 300 = Real.exp (300 : ℕ) := Real.exp_one_pow 300
+    have h3 : Real.exp ((300 : ℕ) : ℝ) ≤ Real.exp x := Real.exp_le_exp.mpr (by push_cast; exact hx)
+    calc (2:ℝ) ^ 300 ≤ Real.exp 1 ^ 300 := h1
+      _ = Real.exp ((300 : ℕ) : ℝ) := h2
+      _ ≤ Real.exp x := h3
+  have hneg : Real.exp (-x) ≤ 1 := by
+    rw [Real.exp_le_one_iff]; linarith
+  have hs : (2:ℝ) ^ 298 ≤ Real.sinh x := by
+    rw [Real.sinh_eq]
+    have e4 : (2:ℝ) ^ 300 = 2 ^ 2 * 2 ^ 298 := by rw [← pow_add]
+    have h298 : (1:ℝ) ≤ 2 ^ 298 := one_le_pow₀ (by norm_num)
+    rw [e4] at he
+    generalize (2:ℝ) ^ 298 = A at *
+    have he' : 4 * A ≤ Real.exp x := by
+      have : (2:ℝ) ^ 2 = 4 := by norm_num
+      rw [this] at he; exact he
+    clear e4 he
+    linarith
+  have hpos : (0:ℝ) < 2 ^ 298 := by positivity
+  have : (2:ℝ) ^ 596 ≤ (Real.sinh x) ^ 2 := by
+    have : (2:ℝ) ^ 596 = (2 ^ 298) ^ 2 := by rw [← pow_mul]
+    rw [this]
+    exact pow_le_pow_left₀ hpos.le hs 2
+  exact one_div_le_one_div_of_le (by positivity) this
+
+theorem efjc_jac_Lp_above (f Lp Lc St kT : ℝ) (hf : 0 < f) (hLp : 0 < Lp) (hkT : 0 < kT) (hSt : 0 < St)
+    (hx : 500 < f * (2 * Lp / kT)) :
+    HasDerivAt (fun Lp => efjcDistance f Lp Lc St kT) ((efjcDistanceJac f Lp Lc St kT).getD 0 0) Lp := by
+  have h20 : (2.0:ℝ) = 2 := by norm_num
+  have hB : 250 * kT / f < Lp := by
+    rw [div_lt_iff₀ hf]
+    have : f * (2 * Lp / kT) * kT = 2 * (f * Lp) := by field_simp
+    nlinarith
+  have hev : (fun Lp => efjcDistance f Lp Lc St kT) =ᶠ[𝓝 Lp]
+      fun Lp => Lc * (1.0 - kT / (2.0 * f * Lp)) * (1.0 + f / St) := by
+    filter_upwards [Ioi_mem_nhds hB] with x hx
+    have hx1 : 250 * kT / f < x := hx
+    have hx0 : 0 < x := lt_trans (by positivity) hx1
+    have h1 : RealLike.lt (RealLike.abs (2.0 * f * x / kT)) (500.0:ℝ) = false := by
+      show decide (|2.0 * f * x / kT| < 500.0) = false
+      rw [decide_eq_false_iff_not]
+      have hp : 0 < 2.0 * f * x / kT := by positivity
+      rw [abs_of_pos hp, not_lt, le_div_iff₀ hkT]
+      rw [div_lt_iff₀ hf] at hx1
+      norm_num; nlinarith
+    simp only [efjcDistance, coth, h1, Bool.false_eq_true, if_false]
+  refine HasDerivAt.congr_of_eventuallyEq ?_ hev
+  apply HasDerivAt.congr_deriv
+  · repeat' deriv_step_h
+    all_goals side_goal
+  · have harg : Lp * (2.0 * f / kT) = f * (2 * Lp / kT) := by rw [h20]; ring
+    have h1 : RealLike.lt (RealLike.abs (f * (2 * Lp / kT))) (500.0:ℝ) = false := by
+      show decide (|f * (2 * Lp / kT)| < 500.0) = false
+      rw [decide_eq_false_iff_not]
+      have hp : 0 < f * (2 * Lp / kT) := by positivity
+      rw [abs_of_pos hp]; norm_num; linarith
+    have h2 : RealLike.lt (RealLike.abs (f * (2 * Lp / kT))) (300.0:ℝ) = false := by
+      show decide (|f * (2 * Lp / kT)| < 300.0) = false
+      rw [decide_eq_false_iff_not]
+      have hp : 0 < f * (2 * Lp / kT) := by positivity
+      rw [abs_of_pos hp]; norm_num; linarith
+    simp only [efjcDistanceJac, List.getD_cons_succ, List.getD_cons_zero, harg, coth, h1, h2, Bool.false_eq_true, if_false]
+    norm_num
+    field_simp
+    ring
+
+theorem efjc_jac_kT_above (f Lp Lc St kT : ℝ) (hf : 0 < f) (hLp : 0 < Lp) (hkT : 0 < kT) (hSt : 0 < St)
+    (hx : 500 < f * (2 * Lp / kT)) :
+    HasDerivAt (fun kT => efjcDistance f Lp Lc St kT) ((efjcDistanceJac f Lp Lc St kT).getD 3 0) kT := by
+  have h20 : (2.0:ℝ) = 2 := by norm_num
+  have hB : kT < f * Lp / 250 := by
+    rw [lt_div_iff₀ (by norm_num)]
+    have : f * (2 * Lp / kT) * kT = 2 * (f * Lp) := by field_simp
+    nlinarith
+  have hev : (fun kT => efjcDistance f Lp Lc St kT) =ᶠ[𝓝 kT]
+      fun kT => Lc * (1.0 - kT / (2.0 * f * Lp)) * (1.0 + f / St) := by
+    filter_upwards [Ioo_mem_nhds hkT hB] with x hx
+    obtain ⟨hx0, hx1⟩ := hx
+    have h1 : RealLike.lt (RealLike.abs (2.0 * f * Lp / x)) (500.0:ℝ) = false := by
+      show decide (|2.0 * f * Lp / x| < 500.0) = false
+      rw [decide_eq_false_iff_not]
+      have hp : 0 < 2.0 * f * Lp / x := by positivity
+      rw [abs_of_pos hp, not_lt, le_div_iff₀ hx0]
+      rw [lt_div_iff₀ (by norm_num)] at hx1
+      norm_num; nlinarith
+    simp only [efjcDistance, coth, h1, Bool.false_eq_true, if_false]
+  refine HasDerivAt.congr_of_eventuallyEq ?_ hev
+  apply HasDerivAt.congr_deriv
+  · repeat' deriv_step_h
+    all_goals side_goal
+  · have harg : Lp * (2.0 * f / kT) = f * (2 * Lp / kT) := by rw [h20]; ring
+    have h1 : RealLike.lt (RealLike.abs (f * (2 * Lp / kT))) (500.0:ℝ) = false := by
+      show decide (|f * (2 * Lp / kT)| < 500.0) = false
+      rw [decide_eq_false_iff_not]
+      have hp : 0 < f * (2 * Lp / kT) := by positivity
+      rw [abs_of_pos hp]; norm_num; linarith
+    have h2 : RealLike.lt (RealLike.abs (f * (2 * Lp / kT))) (300.0:ℝ) = false := by
+      show decide (|f * (2 * Lp / kT)| < 300.0) = false
+      rw [decide_eq_false_iff_not]
+      have hp : 0 < f * (2 * Lp / kT) := by positivity
+      rw [abs_of_pos hp]; norm_num; linarith
+    simp only [efjcDistanceJac, List.getD_cons_succ, List.getD_cons_zero, harg, coth, h1, h2, Bool.false_eq_true, if_false]
+    norm_num
+    field_simp
+    ring
+
+end efjcguards
+
 /-! ### index bookkeeping: the constructors establish the hypotheses of the routing theorems -/
 
 theorem indexOf_eq_some {names : List String} {n : String} {i : Nat} (h : indexOf names n = some i) :
